@@ -10,7 +10,20 @@
 (*   orders    per poster, the sequence numbers of its events in the order   *)
 (*             the application received them;                                *)
 (*   bsent/bgot per blocking poster: events posted while Vaxis was open and  *)
-(*             events received.                                              *)
+(*             events received;                                              *)
+(*   queries   per goroutine that issued terminal queries: kind, when the    *)
+(*             terminal's replies arrived (reply: "ontime" within the write  *)
+(*             of the query, "late" some milliseconds after it, "held" while *)
+(*             the application was shutting its input down in the Suspend of *)
+(*             the end phase, "held-resume" after the Resume that followed,  *)
+(*             "never"), whether all its calls had returned before the       *)
+(*             application closed Vaxis (before) and shortly after Close had *)
+(*             returned (after); end = how the application ended the session.*)
+(* A query call has to come back ("without ... deadlock", "replies arriving  *)
+(* early, late or never", "Close/Suspend/Resume at arbitrary moments"):      *)
+(* when the terminal answered and Vaxis kept running afterwards (Due) while  *)
+(* it runs, and in every case once Vaxis has been closed.  What the call     *)
+(* returns is not judged here.                                               *)
 EXTENDS Integers, Sequences, TLC, Json, IOUtils
 Trace == ndJsonDeserialize(IOEnv.TRACE)
 VARIABLES l
@@ -18,12 +31,21 @@ Init == l = 1
 
 Increasing(s) == \A i \in 1..(Len(s) - 1) : s[i] < s[i + 1]
 
+\* the terminal answered this caller's queries and the application kept Vaxis running after that
+Due(q, e) == \/ q.reply \in {"ontime", "late", "held-resume"}
+             \/ q.reply = "held" /\ e.end = "suspend-resume-close"
+Deadlocked(e) == {i \in 1..Len(e.queries) : Due(e.queries[i], e) /\ ~e.queries[i].before}
+StuckAfterClose(e) == {i \in 1..Len(e.queries) : ~e.queries[i].after}
+QWho(e, I) == {e.queries[i].kind \o "/" \o e.queries[i].reply : i \in I}
+
 Why(e) ==
   IF e.panic # "" THEN "panic"
   ELSE IF e.race # "" THEN "data-race"
   ELSE IF ~e.returned THEN "shutdown-hang"
   ELSE IF e.leaked # <<>> THEN "goroutine-leak"
   ELSE IF e.stuck # <<>> THEN "caller-stuck"
+  ELSE IF Deadlocked(e) # {} THEN "query-deadlock"
+  ELSE IF StuckAfterClose(e) # {} THEN "query-stuck-after-close"
   ELSE IF \E k \in 1..Len(e.orders) : ~Increasing(e.orders[k]) THEN "poster-order"
   ELSE IF \E k \in 1..Len(e.bsent) : e.bgot[k] < e.bsent[k] THEN "blocking-post-dropped"
   \* resize hand-off (ResizeFlag!NoLostResize): once things are quiet the library works with the terminal's size
@@ -35,7 +57,9 @@ Next ==
   /\ LET e == Trace[l] IN
      IF e.ev = "run" /\ Why(e) # "ok" THEN
         PrintT("REJECT " \o ToJson([scn |-> e.scn, line |-> l, why |-> Why(e),
-                                    detail |-> e.panic \o e.race \o e.what, leaked |-> e.leaked, stuck |-> e.stuck]))
+                                    detail |-> e.panic \o e.race \o e.what, leaked |-> e.leaked, stuck |-> e.stuck,
+                                    who |-> IF Why(e) = "query-deadlock" THEN QWho(e, Deadlocked(e))
+                                            ELSE IF Why(e) = "query-stuck-after-close" THEN QWho(e, StuckAfterClose(e)) ELSE {}]))
      ELSE TRUE
 Spec == Init /\ [][Next]_<<l>>
 Consumed == TLCGet("stats").diameter - 1 = Len(Trace)
